@@ -52,17 +52,17 @@ CHECKS = {
          'Generated-input search: validity predicate on the data frame (rows, columns, ranges, no record in a zero-probability cell of any clique or the joint), rounding-mode count error within a rigorous bound that does not grow with rows (checked at two row counts two decades apart), sampling mode within a 1e-12 union bound.',
          'Trusts the brute-force joint and the bound derivation in DESIGN.md (C11); numpy global RNG seeded from the case.'),
  'C16': ('Hypothesis-generated clique sets: validity predicate (finite, >=0, sums to total) on arbitrary structures incl. warm second calls; differential against the brute-force joint on constructed junction-tree-structured clique sets (GBP) and tree factor graphs (LBP)',
-         'Generated-input search over structures (loops, nested separators up to four region levels, forests, unary factors), potentials, totals (incl. re-assigned on the object) and sweep counts.',
+         'Generated-input search over structures (loops, nested separators up to four region levels, forests, unary factors), potentials (incl. -inf structural zeros as LocalInference folds them in), totals (incl. re-assigned on the object) and sweep counts.',
          'Exactness clause uses lexicographically ordered distinct cliques with potentials on the maximal cliques (the premise of the statement); FactorGraph.project is only queried on covered attributes.'),
  'C17': ('Hypothesis-generated region structures / potentials / damping vs an independent dual solver (L-BFGS+BFGS) of the convexified free energy on an independently built region closure; metamorphic re-listing of cliques for non-converging runs',
          'Generated-input search; conditional on the convergence the statement presupposes (primal feasibility <= 1e-9*total within 5000 sweeps, ~99% of cases on the current tree; a run that is stationary but inconsistent, or that converges only when its cliques are re-listed alphabetically, is a violation; the rest is inconclusive).',
-         'Trusts the dual solver only when its gradient norm is < 1e-8 (otherwise inconclusive).'),
+         'Trusts the dual solver only when its gradient norm is < 1e-8 (otherwise inconclusive). Potentials are finite (a constant shift of one region up to 1e4 included); -inf potentials reach this oracle only through C18 (see F25).'),
  'C19': ('Hypothesis-generated public datasets / measurement sets / totals vs validity predicate on the weights, C09 reference total, and loss recomputed from weighted contingency tables (metamorphic: never worse than uniform weights)',
          'Generated-input search with a fresh PublicInference per case; includes degenerate shapes (single-cell projections, exact-fit starts, conflicting answers, a clique measured twice with different noise) that drive the line search to its corner cases.',
          'Loss comparison tolerance 1e-9 relative + 1e-9 x loss of the all-zero table; estimated totals compared with the pinv reference at 1e-6.'),
  'C18': ('Hypothesis-generated measurement sets x marginal oracle x iteration counts: crash-freedom and validity predicate on the measured clique tables, loss vs uniform start, feasibility of the convex oracle; differential against the certified simplex-QP optimum on disjoint clique families',
          'Generated-input search; every exception raised by the estimator is a violation (inputs stay inside the documented interface: explicit Q, tuple projections); exactness clause with iteration escalation and plateau rule.',
-         'pairwise-convex oracle needs cvxopt (not installed) and is outside the listed quantifier.'),
+         'pairwise-convex oracle needs cvxopt (not installed) and is outside the listed quantifier. With structural zeros declared the uniform-start clause is replaced by no-mass-on-declared-cells; F23 (2-cycle) and F25 (convex oracle stationary and inconsistent under structural zeros) are listed known findings.'),
  'C05': ('Hypothesis-generated (mechanism, dataset, neighbour, parameters, numpy seed); numpy.random interposer with operand capture and coupled replay on the neighbour; privacy ledger vs the harness-own zCDP conversion',
          'Generated-input search over all four shipped mechanisms: each noisy release and private selection is charged by the actual change of its operand / probability vector between D and D\' and the total is compared with an independently computed budget. Samples random outcome sequences (seeds); does not enumerate them.',
          'hdmm Identity replaced by scipy.sparse.eye; inference iterations capped at 25 inside the mechanisms; selections charged with the bounded-range bound eta^2/8. F12 (AIM with too few rounds) is a listed known finding.'),
